@@ -59,6 +59,9 @@ pub struct Case {
     pub scope_params: Vec<(String, usize)>,
     /// parameters taken from in-scope variables instead of `name = expr`
     pub in_scope: bool,
+    /// the two parameters are given as `a = b.clone(), b = a.clone()` while variables `a` and `b` are in scope:
+    /// parameter expressions are evaluated in the caller's scope, not in each other's
+    pub swap: bool,
 }
 
 fn rust_str(s: &str) -> String {
@@ -120,7 +123,19 @@ fn emit(id: usize, c: &Case) -> String {
     for (n, k) in &c.scope_params {
         bindings.push((n.clone(), format!("pk({k})")));
     }
+    if c.swap {
+        // declared values are what the run-time path must see: a gets the variable b's value and vice versa
+        let (na, ta, _) = &c.params[0];
+        let (nb, tb, _) = &c.params[1];
+        let pre = format!("let {na} = {}; let {nb} = {}; ", term_expr(tb), term_expr(ta));
+        let args = format!(", {na} = {nb}.clone(), {nb} = {na}.clone()");
+        return emit_with(id, c, &src, &p_list, &s_list, &pre, &args);
+    }
     let (pre, args) = if c.in_scope { (bindings.iter().map(|(n, e)| format!("let {n} = {e}; ")).collect::<String>(), String::new()) } else { (String::new(), bindings.iter().map(|(n, e)| format!(", {n} = {e}")).collect::<String>()) };
+    emit_with(id, c, &src, &p_list, &s_list, &pre, &args)
+}
+
+fn emit_with(id: usize, c: &Case, src: &str, p_list: &str, s_list: &str, pre: &str, args: &str) -> String {
     let (func, mac, merge, target) = match c.kind {
         Kind::Fact => ("case_fact", "fact", None, ""),
         Kind::Rule => ("case_rule", "rule", None, ""),
@@ -210,7 +225,7 @@ pub fn cases(tier: Tier) -> (Vec<Case>, usize) {
             not_expressible += 1;
         }
     };
-    let plain = |family: &str, class: String, kind: Kind, src: String| Case { family: family.to_string(), class, kind, src, params: vec![], scope_params: vec![], in_scope: false };
+    let plain = |family: &str, class: String, kind: Kind, src: String| Case { family: family.to_string(), class, kind, src, params: vec![], scope_params: vec![], in_scope: false, swap: false };
     // F1: every term kind in every position, through every macro
     for (name, t) in c14::all_terms() {
         let s = t.to_string();
@@ -286,7 +301,7 @@ pub fn cases(tier: Tier) -> (Vec<Case>, usize) {
                 if in_scope && sp.is_empty() {
                     continue;
                 }
-                push(&mut out, Case { family: "scope".into(), class: name.clone(), kind, src: src.clone(), params: vec![], scope_params: sp.clone(), in_scope });
+                push(&mut out, Case { family: "scope".into(), class: name.clone(), kind, src: src.clone(), params: vec![], scope_params: sp.clone(), in_scope, swap: false });
             }
         }
     }
@@ -342,16 +357,16 @@ pub fn cases(tier: Tier) -> (Vec<Case>, usize) {
                 }
                 let params: Vec<(String, Term, bool)> = set.iter().map(|(n, v)| (n.clone(), v.clone(), native)).collect();
                 let class = format!("{}/{}{}", t.name, vclass, if native { "/native" } else { "/term" });
-                push(&mut out, Case { family: "parameter".into(), class: class.clone(), kind: base_kind, src: t.src.to_string(), params: params.clone(), scope_params: scope_params.clone(), in_scope: false });
+                push(&mut out, Case { family: "parameter".into(), class: class.clone(), kind: base_kind, src: t.src.to_string(), params: params.clone(), scope_params: scope_params.clone(), in_scope: false, swap: false });
                 let with_containers = if tier == Tier::Thorough { is_typed } else { matches!(vn.as_str(), "int" | "set" | "map" | "string:plain") };
                 if is_typed && (tier == Tier::Thorough || with_containers || !native) {
-                    push(&mut out, Case { family: "parameter".into(), class: format!("{class}/in-scope"), kind: base_kind, src: t.src.to_string(), params: params.clone(), scope_params: scope_params.clone(), in_scope: true });
+                    push(&mut out, Case { family: "parameter".into(), class: format!("{class}/in-scope"), kind: base_kind, src: t.src.to_string(), params: params.clone(), scope_params: scope_params.clone(), in_scope: true, swap: false });
                     for k in containers.iter().filter(|_| with_containers) {
                         let src = match base_kind {
                             Kind::Policy => format!("{}; deny if true", t.src),
                             _ => t.src.to_string(),
                         };
-                        push(&mut out, Case { family: "parameter".into(), class: class.clone(), kind: *k, src, params: params.clone(), scope_params: scope_params.clone(), in_scope: false });
+                        push(&mut out, Case { family: "parameter".into(), class: class.clone(), kind: *k, src, params: params.clone(), scope_params: scope_params.clone(), in_scope: false, swap: false });
                     }
                 }
             }
@@ -391,9 +406,28 @@ pub fn cases(tier: Tier) -> (Vec<Case>, usize) {
                     let params = if uses_p { vec![("p".to_string(), v.clone(), native)] } else { vec![] };
                     let scope_params = if uses_k { vec![("k".to_string(), 1usize)] } else { vec![] };
                     let vclass = if vn.starts_with("string:") { "string" } else { &vn };
-                    push(&mut out, Case { family: "document".into(), class: format!("{name}/{vclass}"), kind, src: src.to_string(), params, scope_params, in_scope });
+                    push(&mut out, Case { family: "document".into(), class: format!("{name}/{vclass}"), kind, src: src.to_string(), params, scope_params, in_scope, swap: false });
                 }
             }
+        }
+    }
+    // F6: parameter expressions are evaluated in the caller's scope: with variables a and b in scope,
+    // `a = b.clone(), b = a.clone()` swaps them (the macros bind all parameters in parallel)
+    for (kind, src) in [
+        (Kind::Fact, "p({a}, {b})"),
+        (Kind::Rule, "r({a}) <- q($x), $x == {b}"),
+        (Kind::Check, "check if q({a}) or q($x), $x == {b}"),
+        (Kind::Policy, "allow if q({a}), q({b})"),
+        (Kind::Block, "p({a}, {b}); check if q({b})"),
+        (Kind::Biscuit, "p({a}); p2({b}, {a})"),
+        (Kind::Authorizer, "p({a}, {b}); allow if p({b}, {a}); deny if true"),
+        (Kind::BlockMerge, "p({a}, {b})"),
+        (Kind::BiscuitMerge, "p({b}, {a})"),
+        (Kind::AuthorizerMerge, "p({a}, {b}); allow if p(1, \"x\")"),
+    ] {
+        for (va, vb) in [(b::int(1), b::string("x")), (b::string("x"), b::int(1)), (Term::Bool(true), Term::Null)] {
+            // params holds what each parameter must end up bound to
+            push(&mut out, Case { family: "binding-scope".into(), class: "swap".into(), kind, src: src.to_string(), params: vec![("a".into(), va.clone(), false), ("b".into(), vb.clone(), false)], scope_params: vec![], in_scope: false, swap: true });
         }
     }
     (out, not_expressible)
